@@ -69,6 +69,9 @@ func isMutex(t reflect.Type) bool {
 
 func (f *Filler) walk(v reflect.Value, path string, owner reflect.Type, field string) {
 	t := v.Type()
+	if strings.Count(path, ".")+strings.Count(path, "[") > 6 {
+		return // recursive types: bounded depth
+	}
 	f.ord++
 	ord := f.ord
 	// hints first: by Owner.Field, then by type
